@@ -25,7 +25,12 @@ func init() {
 		NotDecided:  []string{"equality of values for all set sequences (e.g. the empty value, which SetBytes encodes as no item at all)"},
 		Rules: []core.Rule{
 			{ID: "C16-R1", Title: "writer/parser layout agreement", Decides: "serialising and parsing back yields the same items", Floor: 2, Run: c16r1},
-			{ID: "C16-R2", Title: "fragmentation: constant 255, fresh buffer per fragment, concatenation on read", Decides: "values longer than 255 bytes are split into consecutive fragments that reassemble; later changes of the caller's slice do not change the container", Floor: 5, Run: func(c *core.Ctx) { c16r2(c); itemsSerialisedInStoredOrder(c); passThrough(c, "C16") }},
+			{ID: "C16-R2", Title: "fragmentation: constant 255, fresh buffer per fragment, concatenation on read", Decides: "values longer than 255 bytes are split into consecutive fragments that reassemble; later changes of the caller's slice do not change the container", Floor: 5, Run: func(c *core.Ctx) {
+				c16r2(c)
+				itemsSerialisedInStoredOrder(c)
+				passThrough(c, "C16")
+				returnsUndecorated(c, "C16")
+			}},
 			{ID: "C16-R3", Title: "parser totality: complete reads, errors returned, proved bounds", Decides: "parsing arbitrary bytes never panics and never yields data that was not in the input", Floor: 4, Run: func(c *core.Ctx) { c16r3(c); inputIndexGuarded(c, "util") }},
 			{ID: "C16-R4", Title: "every parsed item consumes tag, length and value", Decides: "parsing never yields data that was not set", Floor: 1, Run: c16r4},
 		},
